@@ -523,6 +523,7 @@ class VersionConverter(object):
             filename = "%s.xml" % filename
 
         if data and "<odML " in data:
-            with open(filename, "w") as file:
+            # The XML header declares UTF-8: do not depend on the locale's encoding.
+            with open(filename, "w", encoding="utf-8") as file:
                 file.write("%s\n" % XML_HEADER)
                 file.write(data)
